@@ -21,10 +21,13 @@ type ImportProg struct {
 }
 
 type ImportMod struct {
-	Name string       `json:"name"`
-	Dir  string       `json:"dir"`
-	All  []string     `json:"all,omitempty"` // __all__ (nil: none)
-	Body []ImportStmt `json:"body"`
+	Name string   `json:"name"`
+	Dir  string   `json:"dir"`
+	All  []string `json:"all,omitempty"` // __all__ (nil: none)
+	// AllForm: how an EMPTY export list is written ("" none, "list" __all__ = [],
+	// "tuple" __all__ = ()): a star import then binds nothing at all
+	AllForm string       `json:"all_form,omitempty"`
+	Body    []ImportStmt `json:"body"`
 	// fault injected into the file (simfs): "", "eio-stat", "eio-read", "torn", "vanish"
 	Fault string `json:"fault,omitempty"`
 }
@@ -117,6 +120,8 @@ func GenImport(r *simrt.Rand, faultsOK bool) *ImportProg {
 				all = append(all[:k], append([]string{"ghost"}, all[k:]...)...)
 			}
 			m.All = all
+		} else if r.Chance(1, 8) {
+			m.AllForm = []string{"list", "tuple"}[r.Intn(2)]
 		}
 		nb := r.Intn(5)
 		for j := 0; j < nb; j++ {
@@ -257,6 +262,9 @@ func (p *ImportProg) renderMod(m ImportMod) string {
 	b.WriteString("from simlog import log, exc_name\n")
 	fmt.Fprintf(&b, "log(\"exec\", \"%s\", __name__)\n", me)
 	fmt.Fprintf(&b, "x = \"x-%s\"\n_p = \"p-%s\"\nh = \"h-%s\"\nval = 0\n", m.Name, m.Name, m.Name)
+	if m.All == nil && m.AllForm != "" {
+		fmt.Fprintf(&b, "__all__ = %s\n", map[string]string{"list": "[]", "tuple": "()"}[m.AllForm])
+	}
 	if m.All != nil {
 		qs := make([]string, len(m.All))
 		for i, a := range m.All {
